@@ -102,9 +102,9 @@ func (m *c01mon) after(s *sim, st rig.StepResult, ctx stepCtx) {
 	m.observeT(s, s.r.T(), "after the step")
 	// a message above the expected number cannot be the one that is consumed: on its arrival the
 	// expected number stays where it is (SequenceReset and Logon have rules of their own)
-	// (an accepted Logon above the expected number is no exception: it reveals a gap, it does not
-	// fill it; a refused one ends the connection and is left out here)
-	if ctx.kind == "in" && ctx.hasSeq && ctx.seq > ctx.tBefore && ctx.msgType != "4" && (ctx.msgType != "A" || s.r.V.IsLoggedOn()) && !m.resetInStep(s, st) {
+	// (a Logon above the expected number is no exception: accepted, it reveals a gap and does not
+	// fill it; refused, it has not used up the expected number either)
+	if ctx.kind == "in" && ctx.hasSeq && ctx.seq > ctx.tBefore && ctx.msgType != "4" && !m.resetInStep(s, st) {
 		if T := s.r.T(); T != ctx.tBefore {
 			vk.Violation(s.t, c, "C01/expected-number-advanced-by-a-message-above-it", "a %s message with MsgSeqNum %d arrived in state %s while %d was expected; afterwards %d is expected\n%s", ctx.msgType, ctx.seq, ctx.stateBefore, ctx.tBefore, T, s.history())
 		}
@@ -112,7 +112,7 @@ func (m *c01mon) after(s *sim, st rig.StepResult, ctx stepCtx) {
 	}
 	// nor can a message below it be: whatever its type and flags, its arrival leaves the expected
 	// number alone (the number advances only for the message that carries it)
-	if ctx.kind == "in" && ctx.hasSeq && ctx.seq < ctx.tBefore && ctx.msgType != "4" && ctx.msgType != "A" && !m.resetInStep(s, st) {
+	if ctx.kind == "in" && ctx.hasSeq && ctx.seq < ctx.tBefore && ctx.msgType != "4" && !m.resetInStep(s, st) {
 		if T := s.r.T(); T != ctx.tBefore {
 			vk.Violation(s.t, c, "C01/expected-number-advanced-by-a-message-below-it", "a %s message with MsgSeqNum %d arrived in state %s while %d was expected; afterwards %d is expected\n%s", ctx.msgType, ctx.seq, ctx.stateBefore, ctx.tBefore, T, s.history())
 		}
@@ -385,6 +385,51 @@ func TestReplay_C01_RejectedFramesFixed(t *testing.T) {
 				s.peerLive("D", false)
 				s.pumpOne()
 			}
+		})
+	}
+}
+
+// TestReplay_C01_RefusedLogonFixed: regression for the defect repaired by /repo 122180a - a Logon
+// that the application refuses leaves the expected number alone unless it carried it.
+func TestReplay_C01_RefusedLogonFixed(t *testing.T) {
+	c := c01()
+	for _, delta := range []int{2, -2} {
+		delta := delta
+		vk.Guard(func() {
+			s := newSim(t, c, simCfg{begin: "FIX.4.2", hb: 30, store: "memory", settings: map[string]string{}})
+			defer s.close()
+			mon := &c01mon{feat: map[string]bool{}, lastT: 1}
+			s.after = append(s.after, mon.after)
+			refuse := false
+			s.r.FromAdminErr = func(m *quickfix.Message) quickfix.MessageRejectError {
+				if mt, _ := m.Header.GetString(35); mt == "A" && refuse {
+					return quickfix.RejectLogon{Text: "refused"}
+				}
+				return nil
+			}
+			if !s.logon(0) {
+				t.Fatalf("harness: logon failed\n%s", s.history())
+			}
+			for i := 0; i < 4; i++ {
+				s.peerLive("D", false)
+				s.pumpOne()
+			}
+			s.disconnect()
+			if !s.connect() {
+				t.Fatalf("harness: connect refused\n%s", s.history())
+			}
+			T := s.r.T()
+			o := peer.Opt{}
+			if delta < 0 {
+				o.PossDup, o.OrigSending = "Y", s.p.Stamp(time.Now().Add(-30*time.Second))
+			}
+			f := s.p.Frame("A", T+delta, s.p.LogonBody(30, false), o)
+			refuse = true
+			ctx := s.ctxFor("in", f, false)
+			ctx.wellFormed = true
+			s.logf("inj %s (T=%d %s) - refused by the application", vk.Show(f), ctx.tBefore, ctx.stateBefore)
+			st := s.r.In(f)
+			s.observe(st, ctx)
 		})
 	}
 }
